@@ -33,6 +33,27 @@ def run(ck: Checker):
     ck.rule('C12-12', 'the future exists when start() returns: it is created by the constructor or by start(), never by the new thread, and run() does not replace it (ORIGIN)', minimum=2)
     check_future_exists_at_start(ck, 'C12-12')
     check_thread_traceback(ck, 'C12-6')
+    ck.rule('C12-14', 'an outcome of any size is collected: the collector reads the result pipe before it waits for the child to end — a child whose result does not fit into the pipe buffer blocks in send() until the parent reads, so a wait on the sentinel (or join / an exit-code poll) ahead of the first recv() never returns (WAITFOR)')
+    cr14 = ck.repo.func(CONTEXT, 'SpawnProcess._collect_result')
+    recvs14 = sorted([c for c in ast.walk(cr14.node) if isinstance(c, ast.Call) and method_of(c)[1] == 'recv'], key=lambda c: c.lineno)
+    ck.need(recvs14, f'{cr14.key}: recv of the outcome not found')
+    early14 = []
+    for x in ast.walk(cr14.node):
+        if getattr(x, 'lineno', 10**9) >= recvs14[0].lineno:
+            continue
+        if isinstance(x, ast.Call) and ((method_of(x)[1] in ('wait', 'join') and ('sentinel' in norm_text(x) or method_of(x)[1] == 'join'))):
+            early14.append(x)
+        if isinstance(x, ast.While) and 'exitcode' in norm_text(x.test):
+            early14.append(x)
+    ck.ob('C12-14', cr14, early14[0] if early14 else recvs14[0], not early14, 'nothing waits for the end of the child before the outcome has been read' if not early14 else f'L{early14[0].lineno}: `{norm_text(early14[0])[:60]}` waits for the child to end before the first recv(): a child sending a large outcome is blocked in send() and never ends — join / result / wait hang')
+    ck.rule('C12-15', 'a killed child is reported by its signal, whoever reaps it: on EOF the collector uses the exit code only after it has seen that it is not None (a concurrent join() may have reaped the child without having stored the code yet — `-None` would end the collector with TypeError and leave the future unresolved)')
+    probs15 = []
+    for h in [h_ for t_ in ast.walk(cr14.node) if isinstance(t_, ast.Try) for h_ in t_.handlers if h_.type is not None and 'EOFError' in norm_text(h_.type)]:
+        uses = [x for x in ast.walk(h) if isinstance(x, (ast.UnaryOp, ast.BinOp, ast.Compare)) and not (isinstance(x, ast.Compare) and any(is_none(c_) for c_ in x.comparators)) and any(isinstance(y, ast.Attribute) and dotted(y) == 'self.exitcode' for y in ast.walk(x)) and not (isinstance(x, ast.UnaryOp) and isinstance(x.op, ast.Not))]
+        guards = [x for x in ast.walk(h) if isinstance(x, (ast.While, ast.If)) and 'self.exitcode' in norm_text(x.test) and 'None' in norm_text(x.test)]
+        if uses and not any(g_.lineno <= min(u.lineno for u in uses) for g_ in guards):
+            probs15.append(f'L{uses[0].lineno}: `{norm_text(uses[0])[:40]}` uses the exit code without having waited for it to be set')
+    ck.ob('C12-15', cr14, (cr14.node.lineno, 'exit code on EOF'), not probs15, '; '.join(probs15) if probs15 else 'on EOF the exit code is used only after the wait for it to be set')
     ck.rule('C12-13', 'a child whose run() itself failed (the result could not be pickled, the report of the exception raised) does not exit with status 0: the override of _bootstrap returns the recorded code only after it has consulted what the standard bootstrap returned (1 when run() raised) — assert / test / combine, never discard')
     check_bootstrap_code(ck, 'C12-13')
     ck.rule('C12-7', 'pipe ownership: the write end of the result pipe lives only in a mapping created by SpawnProcess.__init__ (never in the caller\'s kwargs dict), so that a killed child is seen as EOF (ORIGIN)')
